@@ -89,6 +89,11 @@ func (s *UDPSess) WriteMessage(req *pool.Message) error {
 	if err != nil {
 		return err
 	}
+	select { // as net.UDPConn.writeWithCfg: a write under a finished context is refused
+	case <-req.Context().Done():
+		return req.Context().Err()
+	default:
+	}
 	cp := append([]byte(nil), data...)
 	s.mu.Lock()
 	s.out = append(s.out, cp)
